@@ -551,10 +551,75 @@ func (e *Engine) VerifyFunc(key string) {
 	fc.indexSites()
 	fc.ipdom = ipdoms(fn)
 	fc.rename = map[string]string{}
-	if cur := namedLocals(fn); len(con.Locals) > 0 && len(con.Locals) == len(cur) {
-		for i, old := range con.Locals {
-			if old != cur[i] {
-				fc.rename[old] = cur[i]
+	if curT := namedLocalsTyped(fn); len(con.Locals) > 0 {
+		// names that disappeared are matched with names that appeared: first by type when the type
+		// singles one out, then in declaration order; names that are still there keep their meaning
+		// wherever their declaration has moved
+		split := func(tok string) (string, string) {
+			if k := strings.Index(tok, ":"); k >= 0 {
+				return tok[:k], tok[k+1:]
+			}
+			return tok, ""
+		}
+		type nt struct{ name, typ string }
+		var olds, news []nt
+		oldN, newN := map[string]int{}, map[string]int{}
+		for _, tok := range con.Locals {
+			n, t := split(tok)
+			olds = append(olds, nt{n, t})
+			oldN[n]++
+		}
+		for _, tok := range curT {
+			n, t := split(tok)
+			news = append(news, nt{n, t})
+			newN[n]++
+		}
+		var gone, fresh []nt
+		for _, o := range olds {
+			if newN[o.name] > 0 {
+				newN[o.name]--
+			} else {
+				gone = append(gone, o)
+			}
+		}
+		for _, n := range news {
+			if oldN[n.name] > 0 {
+				oldN[n.name]--
+			} else {
+				fresh = append(fresh, n)
+			}
+		}
+		if len(gone) == len(fresh) {
+			used := make([]bool, len(fresh))
+			matched := make([]bool, len(gone))
+			// same type, in order within that type
+			for gi, g := range gone {
+				for k, f := range fresh {
+					if !used[k] && g.typ != "" && g.typ == f.typ {
+						used[k] = true
+						matched[gi] = true
+						if _, dup := fc.rename[g.name]; !dup {
+							fc.rename[g.name] = f.name
+						}
+						break
+					}
+				}
+			}
+			// the rest in declaration order
+			k := 0
+			for gi, g := range gone {
+				if matched[gi] {
+					continue
+				}
+				for k < len(fresh) && used[k] {
+					k++
+				}
+				if k < len(fresh) {
+					used[k] = true
+					if _, dup := fc.rename[g.name]; !dup {
+						fc.rename[g.name] = fresh[k].name
+					}
+				}
 			}
 		}
 		if len(fc.rename) > 0 {
@@ -732,6 +797,33 @@ var startTime = time.Now()
 
 // namedLocals lists the source-level variables of fn (parameters, results, locals) in
 // the order their cells are created, without compiler temporaries.
+// namedLocalsTyped: like namedLocals, each name followed by ':' and its type (no blanks).
+func namedLocalsTyped(fn *ssa.Function) []string {
+	var out []string
+	for _, b := range fn.Blocks {
+		for _, ins := range b.Instrs {
+			al, ok := ins.(*ssa.Alloc)
+			if !ok || !isNamedLocal(al) {
+				continue
+			}
+			t := types.TypeString(deref(al.Type()), func(p *types.Package) string { return p.Name() })
+			out = append(out, al.Comment+":"+strings.ReplaceAll(t, " ", ""))
+		}
+	}
+	return out
+}
+
+func isNamedLocal(al *ssa.Alloc) bool {
+	if al.Comment == "" {
+		return false
+	}
+	switch al.Comment {
+	case "rangeindex", "complit", "varargs", "slicelit", "defer$stack", "makeslice", "new", "typeassert,ok":
+		return false
+	}
+	return !strings.HasPrefix(al.Comment, "defer$")
+}
+
 func namedLocals(fn *ssa.Function) []string {
 	var out []string
 	for _, b := range fn.Blocks {
